@@ -69,7 +69,14 @@ def evalf(expr, subs, mp):
     val = e.subs(subs).evalf(40)
     if val.is_Boolean or isinstance(val, (bool, sympy.logic.boolalg.BooleanAtom)):
         return bool(val)
+    if not val.is_real:            # complex / unevaluated: certainly not the (real) number the numeric backends return
+        return NotReal(str(val)[:60])
     return mp.mpf(str(val))
+
+
+class NotReal:
+    def __init__(self, text):
+        self.text = text
 
 
 def compare(case, got_sym, got_num, subs, mp, problems, scale):
@@ -86,11 +93,17 @@ def compare(case, got_sym, got_num, subs, mp, problems, scale):
             (list(got_sym.temporal.elements) if hasattr(got_sym, "temporal") else [])
         for j, (e, nv) in enumerate(zip(sc, C.stored(got_num))):
             v = evalf(e, subs, mp)
+            if isinstance(v, NotReal):
+                problems.append((f"value:{case[0]}", f"{case} coordinate {j}: the SymPy expression evaluates to the non-real {v.text}, numeric {str(nv)[:24]}; expr {str(e)[:100]}"))
+                return
             if abs(v - nv) > tol * (1 + abs(nv)):
                 problems.append((f"value:{case[0]}", f"{case} coordinate {j}: sympy {str(v)[:24]} numeric {str(nv)[:24]}; expr {str(e)[:100]}"))
                 return
     else:
         v = evalf(got_sym, subs, mp)
+        if isinstance(v, NotReal):
+            problems.append((f"value:{case[0]}", f"{case}: the SymPy expression evaluates to the non-real {v.text}, numeric {str(got_num)[:24]}; expr {str(got_sym)[:120]}"))
+            return
         if isinstance(v, bool) or isinstance(got_num, bool):
             if bool(v) != bool(got_num):
                 problems.append((f"value:{case[0]}", f"{case}: sympy {v} numeric {got_num}"))
